@@ -76,12 +76,32 @@ var c04Routes = []c04Route{
 	{[]string{ATOM, USDC}, []int{1}},             // 13 invalid: pool without the denom
 	{[]string{USDC, ATOM}, []int{9}},             // 14 invalid: no such pool
 	{[]string{USDC, USDC}, []int{0}},             // 15 invalid: same denom
+	// routes that come back to a pool they already used (c04RevisitFirst .. end); the hop loops decide "last hop" by
+	// position, so the earlier visit of the last pool must pay the SENDER and run with the neutral limit
+	{[]string{USDC, ATOM, USDC}, []int{0, 0}},          // 16 there and back on the oracle pool
+	{[]string{ATOM, USDC, ATOM}, []int{2, 2}},          // 17 there and back on a constant-product pool
+	{[]string{USDC, ELYS, USDC}, []int{1, 1}},          // 18
+	{[]string{ELYS, USDC, ELYS}, []int{1, 1}},          // 19
+	{[]string{USDC, ATOM, USDC, ATOM}, []int{0, 2, 0}}, // 20 A-B-A: the last pool is also the first
+	{[]string{ATOM, USDC, ATOM, USDC}, []int{2, 0, 2}}, // 21 A-B-A
+	{[]string{USDC, ELYS, USDC, ATOM}, []int{1, 1, 0}}, // 22 the FIRST pool twice in a row, last pool fresh
+	{[]string{ELYS, USDC, ATOM, USDC}, []int{1, 2, 2}}, // 23 the LAST pool twice in a row
+	{[]string{USDC, ATOM, USDC, ELYS}, []int{0, 0, 1}}, // 24
+	{[]string{ATOM, USDC, ATOM, USDC}, []int{0, 0, 0}}, // 25 one pool three times
+	{[]string{ATOM, USDC, ATOM}, []int{0, 0}},          // 26
+	{[]string{USDC, ATOM, USDC}, []int{2, 2}},          // 27
 }
+
+const c04RevisitFirst = 16
 
 const c04Users = 6 // 0..3 funded with 1e12 of each denom, 4..5 poor
 
-func c04Gen(r *Rng, id int) c04Hist {
+// revisit = false: the histories as they always were; revisit = true: the same generator, with about half of the
+// requests (in some blocks nearly all) rewritten by c04Revisit from a second random stream
+func c04Gen(r *Rng, id int, revisit bool) c04Hist {
 	h := c04Hist{ID: id}
+	r2 := &Rng{s: r.s*0x2545F4914F6CDD1D + 0xC04B}
+	r2.Next()
 	nb := 2 + r.Intn(3)
 	for b := 0; b < nb; b++ {
 		var blk c04Block
@@ -89,6 +109,13 @@ func c04Gen(r *Rng, id int) c04Hist {
 		// a theme per block makes collisions frequent
 		theme := r.Intn(5)
 		base := r.Intn(13)
+		revisitPct := 0
+		if revisit {
+			revisitPct = 45
+			if r2.Chance(15) { // a whole block of routes that revisit pools
+				revisitPct = 90
+			}
+		}
 		for k := 0; k < n; k++ {
 			var op c04Op
 			switch x := r.Intn(100); {
@@ -149,11 +176,65 @@ func c04Gen(r *Rng, id int) c04Hist {
 				op.Amt = "pct:" + strconv.Itoa([]int{1, 30, 60, 60, 99, 100, 101}[r.Intn(7)])
 			}
 			op.Lim = []string{"loose", "loose", "exact", "exact", "slack", "tight", "zero"}[r.Intn(7)]
+			if revisitPct > 0 && r2.Chance(revisitPct) {
+				c04Revisit(r2, &op)
+			}
 			blk.Ops = append(blk.Ops, op)
 		}
 		h.Blocks = append(h.Blocks, blk)
 	}
 	return h
+}
+
+// c04Revisit turns a request into one whose route uses a pool more than once (2 or 3 hops): exact-in or exact-out,
+// sender rich in every denom of the fixture (now and then a poor one), recipient = sender / another user / (exact-in)
+// an account that does not exist yet, minimum 1 or at / next to the achievable amount
+func c04Revisit(r *Rng, op *c04Op) {
+	op.Route = c04RevisitFirst + r.Intn(len(c04Routes)-c04RevisitFirst)
+	switch op.Kind {
+	case "bd_in":
+		op.Kind = "in"
+	case "bd_out":
+		op.Kind = "out"
+	}
+	if r.Chance(25) {
+		op.Kind = []string{"in", "out"}[r.Intn(2)]
+	}
+	op.From = r.Intn(4)
+	if r.Chance(12) {
+		op.From = 4 + r.Intn(2)
+	}
+	switch x := r.Intn(100); {
+	case x < 30:
+		op.To = op.From
+	case x < 75 || op.Kind == "out":
+		op.To = (op.From + 1 + r.Intn(c04Users-1)) % c04Users
+	default:
+		op.To = -4 - r.Intn(2)
+	}
+	switch x := r.Intn(100); {
+	case x < 60:
+		op.Amt = r.Decade(2, 9).String()
+	case x < 75:
+		op.Amt = r.Decade(9, 11).String()
+	case x < 85:
+		op.Amt = "1"
+	default:
+		op.Amt = "pct:" + strconv.Itoa([]int{1, 30, 99, 101}[r.Intn(4)])
+	}
+	op.Lim = []string{"loose", "loose", "loose", "exact", "exact", "slack", "tight", "zero"}[r.Intn(8)]
+}
+
+// a route that uses some pool on more than one hop
+func c04Revisits(pools []uint64) bool {
+	seen := map[uint64]bool{}
+	for _, p := range pools {
+		if seen[p] {
+			return true
+		}
+		seen[p] = true
+	}
+	return false
 }
 
 func c04Corpus() []c04Hist {
@@ -174,6 +255,39 @@ func c04Corpus() []c04Hist {
 					{Kind: "price", Price: "6.5"},
 					{Kind: "in", From: 2, To: 3, Route: 0, Amt: "999999999", Lim: "exact"},
 					{Kind: "in", From: 3, To: -2, Route: 1, Amt: "5000000", Lim: "slack"}}}}},
+	}
+}
+
+// directed histories appended after the generated ones (so that the generated histories keep their streams)
+func c04CorpusLate() []c04Hist {
+	return []c04Hist{
+		{ // routes that revisit their last pool, recipient <> sender, minimum 1 and exact: there-and-back and A-B-A, exact-in and exact-out
+			Blocks: []c04Block{{Ops: []c04Op{
+				{Kind: "in", From: 0, To: 1, Route: 16, Amt: "1000000", Lim: "loose"},
+				{Kind: "in", From: 1, To: -4, Route: 20, Amt: "2000000", Lim: "loose"},
+				{Kind: "out", From: 2, To: 3, Route: 17, Amt: "300000", Lim: "loose"}}},
+				{Ops: []c04Op{
+					{Kind: "in", From: 0, To: 2, Route: 17, Amt: "700000", Lim: "exact"},
+					{Kind: "in", From: 1, To: 1, Route: 21, Amt: "900000", Lim: "exact"},
+					{Kind: "out", From: 3, To: 0, Route: 20, Amt: "50000", Lim: "exact"}}},
+				{Ops: []c04Op{
+					{Kind: "in", From: 2, To: 3, Route: 23, Amt: "4000000", Lim: "slack"},
+					{Kind: "in", From: 3, To: -5, Route: 25, Amt: "123456", Lim: "loose"},
+					{Kind: "in", From: 0, To: 1, Route: 18, Amt: "5000000", Lim: "tight"},
+					{Kind: "out", From: 1, To: 2, Route: 24, Amt: "80000", Lim: "slack"}}}}},
+		{ // the oracle pool pushed far off its target weights, then requests in the recovering direction (the ones that earn a
+			// weight bonus) whose minimum is one unit more than the pool pays, or exactly what it pays: the bonus is not part of the minimum
+			Blocks: []c04Block{{Ops: []c04Op{
+				{Kind: "in", From: 0, To: 0, Route: 0, Amt: "1000000000", Lim: "loose"},
+				{Kind: "in", From: 1, To: 1, Route: 0, Amt: "10000000000", Lim: "loose"},
+				{Kind: "in", From: 2, To: 2, Route: 0, Amt: "100000000000", Lim: "loose"}}},
+				{Ops: []c04Op{
+					{Kind: "in", From: 0, To: 1, Route: 1, Amt: "1000000", Lim: "tight"},
+					{Kind: "in", From: 1, To: 1, Route: 1, Amt: "50000000", Lim: "tight"},
+					{Kind: "in", From: 2, To: 3, Route: 1, Amt: "3000000", Lim: "exact"}}},
+				{Ops: []c04Op{
+					{Kind: "in", From: 0, To: 1, Route: 0, Amt: "1000000", Lim: "tight"},
+					{Kind: "in", From: 3, To: 3, Route: 9, Amt: "2000000", Lim: "tight"}}}}},
 	}
 }
 
@@ -208,7 +322,8 @@ type c04Run struct {
 	w      *World
 	m      *Market
 	users  []sdk.AccAddress
-	pools  []uint64 // route pool number -> pool id
+	fresh  []sdk.AccAddress // recipients that hold nothing and have no account when the history starts (To = -4, -5)
+	pools  []uint64         // route pool number -> pool id
 	vault  sdk.AccAddress
 	addrID map[string]int
 	denID  map[string]int
@@ -247,7 +362,7 @@ var c04Denoms = []string{USDC, ATOM, ELYS}
 
 func (x *c04Run) tracked() []string {
 	var l []string
-	for _, u := range x.users {
+	for _, u := range x.accounts() {
 		l = append(l, u.String())
 	}
 	for _, id := range x.pools[:3] {
@@ -256,6 +371,12 @@ func (x *c04Run) tracked() []string {
 	}
 	l = append(l, x.vault.String())
 	return l
+}
+
+// every account whose balances (all denoms of the fixture, hence every intermediate denom of every route) are
+// compared before the block / after commit: the senders and the fresh recipients
+func (x *c04Run) accounts() []sdk.AccAddress {
+	return append(append([]sdk.AccAddress{}, x.users...), x.fresh...)
 }
 
 func (x *c04Run) snapshot() map[string]*big.Int {
@@ -477,7 +598,8 @@ func c04Exec(t *testing.T, col *Collector, h c04Hist) []string {
 	w.Mint(Addr(10), sdk.NewCoins(sdk.NewCoin(USDC, I(5_000_000)), sdk.NewCoin(ATOM, I(300)), sdk.NewCoin(ELYS, I(2_000_000))))
 	w.Mint(Addr(11), sdk.NewCoins(sdk.NewCoin(ATOM, I(40_000_000))))
 	x.vault = authtypes.NewModuleAddress("stablestake")
-	for i, u := range x.users {
+	x.fresh = []sdk.AccAddress{Addr(20), Addr(21)}
+	for i, u := range x.accounts() {
 		x.addrID[u.String()] = i + 1
 	}
 	for _, id := range x.pools[:3] {
@@ -524,6 +646,8 @@ func (x *c04Run) recipient(op c04Op) string {
 		return ammtypes.NewPoolAddress(x.pools[1]).String()
 	case op.To == -3:
 		return x.vault.String()
+	case op.To == -4 || op.To == -5:
+		return x.fresh[-4-op.To].String()
 	}
 	return ""
 }
@@ -710,6 +834,9 @@ func (x *c04Run) block(bi int, blk c04Block) (caseText, fp string, nontrivial bo
 		res := w.Deliver(msg)
 		qi1, qo1 := x.queue()
 		x.col.Op(op.Kind, res.Kind(), amt.BigInt())
+		if c04Revisits(pools) {
+			x.col.Op("revisit_"+op.Kind, res.Kind(), nil)
+		}
 		if res.Panic != nil {
 			x.fail("C04:handler-panic", fmt.Sprintf("block %d op %d: %v", bi, oi, res.Panic))
 		}
@@ -810,7 +937,7 @@ func (x *c04Run) block(bi int, blk c04Block) (caseText, fp string, nontrivial bo
 	var execs []exec
 	used := map[int]bool{}
 	isUser := map[string]bool{}
-	for _, u := range x.users {
+	for _, u := range x.accounts() {
 		isUser[u.String()] = true
 	}
 	matches := func(r *c04Stored, hs []c04Hop) bool {
@@ -890,6 +1017,9 @@ func (x *c04Run) block(bi int, blk c04Block) (caseText, fp string, nontrivial bo
 		}
 		S, R := r.Sender, r.MsgRcpt
 		dIn, dOut := r.Denoms[0], r.Denoms[len(r.Denoms)-1]
+		if c04Revisits(r.Pools) {
+			x.col.Op("revisit_executed", fmt.Sprintf("%s hops=%d rcpt_is_sender=%v", map[bool]string{true: "in", false: "out"}[r.IsIn], len(r.Pools), S == R), nil)
+		}
 		desc := fmt.Sprintf("block %d request %d (%s, %d hops, sender %d, stated recipient %d, stored recipient %d, amount %s, limit %s)", bi, r.Idx,
 			map[bool]string{true: "exact-in", false: "exact-out"}[r.IsIn], len(r.Pools), x.aid(S), x.aid(R), x.aid(r.Rcpt), r.Amt, r.Lim)
 		denset := map[string]bool{}
@@ -897,6 +1027,17 @@ func (x *c04Run) block(bi int, blk c04Block) (caseText, fp string, nontrivial bo
 			denset[key[strings.Index(key, "|")+1:]] = true
 		}
 		denset[dIn], denset[dOut] = true, true
+		// every denom the route passes through is judged, moved or not; inter = passed through but neither paid nor received
+		inter := map[string]bool{}
+		for _, d := range r.Denoms {
+			denset[d] = true
+			if d != dIn && d != dOut {
+				inter[d] = true
+			}
+		}
+		for _, d := range c04Denoms {
+			denset[d] = true
+		}
 		var dens []string
 		for d := range denset {
 			dens = append(dens, d)
@@ -915,6 +1056,8 @@ func (x *c04Run) block(bi int, blk c04Block) (caseText, fp string, nontrivial bo
 						if v.Cmp(r.Lim.BigInt()) < 0 {
 							x.fail("C04:exact-in-credit", desc+fmt.Sprintf(": received %s %s < minimum", v, d))
 						}
+					} else if v.Sign() != 0 && inter[d] {
+						x.fail("C04:exact-in-intermediate-denom-moved", desc+fmt.Sprintf(": sender's %s, a denom the route only passes through, moved by %s", d, v))
 					} else if v.Sign() != 0 {
 						x.fail("C04:exact-in-debit", desc+fmt.Sprintf(": sender's %s moved by %s beyond the stated input", d, v))
 					}
@@ -925,6 +1068,8 @@ func (x *c04Run) block(bi int, blk c04Block) (caseText, fp string, nontrivial bo
 						if v.Cmp(r.Lim.BigInt()) < 0 || v.Sign() <= 0 {
 							x.fail("C04:exact-in-credit", desc+fmt.Sprintf(": recipient received %s %s < minimum", v, d))
 						}
+					} else if v.Sign() != 0 && inter[d] {
+						x.fail("C04:exact-in-intermediate-denom-moved", desc+fmt.Sprintf(": recipient's %s, a denom the route only passes through, moved by %s", d, v))
 					} else if v.Sign() != 0 {
 						x.fail("C04:exact-in-credit", desc+fmt.Sprintf(": recipient's %s moved by %s", d, v))
 					}
@@ -975,7 +1120,7 @@ func (x *c04Run) block(bi int, blk c04Block) (caseText, fp string, nontrivial bo
 		}
 	}
 	// per block: every user's balance change is the sum of the executed requests' effects (a dropped request moved nothing)
-	for _, u := range x.users {
+	for _, u := range x.accounts() {
 		for _, d := range c04Denoms {
 			key := u.String() + "|" + d
 			diff := new(big.Int).Sub(after[key], before[key])
@@ -1125,8 +1270,12 @@ func TestC04(t *testing.T) {
 	} else {
 		hists = append(hists, c04Corpus()...)
 		for i := len(hists); i < n; i++ {
-			hists = append(hists, c04Gen(NewRng(uint64(seed), uint64(i)), i))
+			hists = append(hists, c04Gen(NewRng(uint64(seed), uint64(i)), i, false))
 		}
+		for i := n; i < n+n/3; i++ { // on top: histories whose routes come back to pools they already used
+			hists = append(hists, c04Gen(NewRng(uint64(seed), uint64(i)), i, true))
+		}
+		hists = append(hists, c04CorpusLate()...)
 	}
 	RunParallel(len(hists), func(i int) {
 		h := hists[i]
